@@ -24,13 +24,13 @@ def resolve(syms, vaddr, n):
     return sorted(names) or ['unknown@%x' % vaddr]
 
 
-def conformance_scenario(i):
+def conformance_scenario(i, hards=(0, 1), portable=False):
     """every kind of public call, alone, with the shared cache write-protected while VMs use it"""
-    L = ['AllocCache c1 s1 m1 jit=%d argon=%d' % (i % 2, i % 3), 'InitCache c1 K1', 'InitCache c1 K2', 'InitCache c1 K1',
+    L = ['AllocCache c1 s1 m1 jit=%d argon=%d' % (0 if portable else i % 2, 0 if portable else i % 3), 'InitCache c1 K1', 'InitCache c1 K2', 'InitCache c1 K1',
          'AllocDataset d1 dm1 nchunks=1', 'InitDatasetReal d1 c1 %d %d' % (1000 + i, 37 + i), 'InitDatasetReal d1 c1 5 2', 'Protect c1 ro']
     n = 0
-    for kind in ('IL', 'CL'):
-        for hard in (0, 1):
+    for kind in (('IL',) if portable else ('IL', 'CL')):
+        for hard in hards:
             for secure in ((0, 1) if kind == 'CL' else (0,)):
                 n += 1
                 v2 = (n + i) % 2
@@ -39,8 +39,8 @@ def conformance_scenario(i):
     L += ['InitDatasetReal d1 c1 %d %d' % (200000 + 4 * i, 64), 'Protect c1 rw']
     # full-memory VMs over the (lazily filled) dataset
     L += ['InitDatasetChunk d1 c1 1']
-    for kind in ('IF', 'CF'):
-        L += ['CreateVm v2 %s none d1 v2=%d hard=%d secure=%d' % (kind, i % 2, (i + 1) % 2, 1 if kind == 'CF' else 0), 'Hash v2 I1 key=K1', 'SetDataset v2 d1', 'DestroyVm v2']
+    for kind in (('IF',) if portable else ('IF', 'CF')):
+        L += ['CreateVm v2 %s none d1 v2=%d hard=%d secure=%d' % (kind, i % 2, ((i + 1) % 2) if 1 in hards else 0, 1 if kind == 'CF' else 0), 'Hash v2 I1 key=K1', 'SetDataset v2 d1', 'DestroyVm v2']
     L += ['ReleaseDataset d1', 'ReleaseCache c1']
     return '\n'.join(L) + '\n'
 
@@ -70,6 +70,45 @@ def tsan_races(logprefix):
             races.append({'e': 'race', 'kind': kind, 'where': where, 'report': blk.strip()[:1500]})
     return races
 
+def portable_footprint(ck, wd, n=1):
+    """per-call global-write footprints of the PORTABLE build (used by C17: the generic fallbacks must not keep process-wide state)"""
+    os.makedirs(wd, exist_ok=True)
+    exe_pso = vlib.build_harness('rx_api', variant='portable', extra=['-fno-access-control'], shared=True)
+    psyms = symbols(os.path.join(os.path.dirname(exe_pso), 'librxverif.so'))
+    tabs = apiscen.fresh_tables([(0, 0)], ['IL', 'CL'], os.path.join(wd, 'pfresh'))
+    lines = []
+    for i in range(n):
+        scn = os.path.join(wd, 'pfoot%d.scn' % i)
+        open(scn, 'w').write(conformance_scenario(i + ck.seed, hards=(0,), portable=True))
+        outp = os.path.join(wd, 'pfoot%d.ndjson' % i)
+        vlib.sh([exe_pso, '--scenario', scn, '--data', tabs[(0, 0)][0], '--fresh', tabs[(0, 0)][1], '--out', outp, '--globals', '1', '--watchdog', '900'], timeout=2400, check=False)
+        vm = {}
+        for l in open(outp):
+            if not l.strip():
+                continue
+            ev = json.loads(l)
+            if ev['e'] in ('Crash', 'Timeout', 'Exception'):
+                lines.append(json.dumps(ev))
+                continue
+            if ev['e'] == 'CreateVm':
+                vm[ev['v']] = ev['flags']
+            if ev['e'] not in OPMAP:
+                continue
+            fl = vm.get(ev.get('v'), 0)
+            gw = []
+            for a, nb in ev.get('gw', []):
+                gw += resolve(psyms, a, nb)
+            lines.append(json.dumps({'e': 'call', 'op': OPMAP[ev['e']], 'api': ev['e'], 'light': not (fl & FULL), 'hardAes': False, 'gw': sorted(set(gw)), 'build': 'portable'}))
+    res = vlib.validate_sharded('TraceConc', 'TraceConc.cfg', lines, 'pfoot', shards=4, timeout=900)
+    ck.add_traces('TraceConc(portable footprint)', res, 'every public call alone on the portable build, library as shared object, writable segments diffed: no call writes a library global')
+    for rj in res['rejected']:
+        try:
+            ev = json.loads(rj['line'])
+        except Exception:
+            ev = {}
+        ck.violation('globalwrite:%s:%s:portable' % (ev.get('api', ev.get('e')), ','.join(ev.get('gw', []))), 'portable build: call %s writes library global(s) %s' % (ev.get('api'), ev.get('gw')), {'event': ev, 'tlc': rj['tlc']})
+    return res
+
 
 def run():
     ck = vlib.Check('C14', 'model_checking')
@@ -94,6 +133,17 @@ def run():
         open(scn, 'w').write(conformance_scenario(i + ck.seed))
         outp = os.path.join(wd, 'conf%d.ndjson' % i)
         vlib.sh([exe_so, '--scenario', scn, '--data', tabs[(0, 0)][0], '--fresh', tabs[(0, 0)][1], '--out', outp, '--globals', '1', '--watchdog', '600'], timeout=1800, check=False)
+        return [json.loads(l) for l in open(outp) if l.strip()]
+    # the same for the PORTABLE build of the tree (generic vector code, fenv rounding, software AES only): its fallbacks must not keep
+    # process-wide state either
+    exe_pso = vlib.build_harness('rx_api', variant='portable', extra=['-fno-access-control'], shared=True)
+    psyms = symbols(os.path.join(os.path.dirname(exe_pso), 'librxverif.so'))
+
+    def pconf(i):
+        scn = os.path.join(wd, 'pconf%d.scn' % i)
+        open(scn, 'w').write(conformance_scenario(i + ck.seed, hards=(0,), portable=True))
+        outp = os.path.join(wd, 'pconf%d.ndjson' % i)
+        vlib.sh([exe_pso, '--scenario', scn, '--data', tabs[(0, 0)][0], '--fresh', tabs[(0, 0)][1], '--out', outp, '--globals', '1', '--watchdog', '900'], timeout=2400, check=False)
         return [json.loads(l) for l in open(outp) if l.strip()]
     # (c) schedules under ThreadSanitizer; sequential references from the uninstrumented build with the same seed
     exe_t = vlib.build_harness('rx_conc', variant='tsan')
@@ -126,12 +176,14 @@ def run():
         return evs + tsan_races(logp)
     with ThreadPoolExecutor(16) as ex:
         fc = [ex.submit(conf, i) for i in range(nconf)]
+        fp = [ex.submit(pconf, i) for i in range(2 if ck.thorough else 1)]
         ft = [ex.submit(conc, i) for i in range(len(runs))]
         confs = [f.result() for f in fc]
+        pconfs = [f.result() for f in fp]
         concs = [f.result() for f in ft]
     vm = {}
     ncalls = 0
-    for evs in confs:
+    for evs, sy, build in [(e, syms, 'default') for e in confs] + [(e, psyms, 'portable') for e in pconfs]:
         for ev in evs:
             e = ev['e']
             if e in ('Crash', 'Timeout', 'Exception'):
@@ -144,9 +196,9 @@ def run():
             fl = vm.get(ev.get('v'), 0)
             gw = []
             for a, n in ev.get('gw', []):
-                gw += resolve(syms, a, n)
+                gw += resolve(sy, a, n)
             ncalls += 1
-            lines.append(json.dumps({'e': 'call', 'op': OPMAP[e], 'api': e, 'light': not (fl & FULL), 'hardAes': bool(fl & HARD), 'gw': sorted(set(gw))}))
+            lines.append(json.dumps({'e': 'call', 'op': OPMAP[e], 'api': e, 'light': not (fl & FULL), 'hardAes': bool(fl & HARD), 'gw': sorted(set(gw)), 'build': build}))
     nraces = 0
     for evs in concs:
         for ev in evs:
@@ -164,7 +216,7 @@ def run():
             key = 'race:' + ev['where']
             text = 'ThreadSanitizer %s at %s' % (ev['kind'], ev['where'])
         elif ev.get('e') == 'call':
-            key = 'globalwrite:%s:%s' % (ev['api'], ','.join(ev['gw']))
+            key = 'globalwrite:%s:%s%s' % (ev['api'], ','.join(ev['gw']), ':portable' if ev.get('build') == 'portable' else '')
             text = 'call %s writes library global(s) %s outside its footprint' % (ev['api'], ev['gw'])
         else:
             key = 'conc:%s:%s' % (ev.get('e'), ev.get('mode', ev.get('during', '')))
